@@ -71,6 +71,13 @@ where
       move |e| error(serial_error, e),
       move || complete(serial_complete),
     );
+    // when the stream this controller belongs to is already over, nothing may
+    // be started on its behalf any more: the observer is born unsubscribed
+    // (inner_subscribe ignores it) and is not registered
+    if !self.subscriber.is_subscribed() {
+      observer.unsubscribe();
+      return observer;
+    }
     let o_unsub = observer.clone();
 
     let mut unsubscribers = self.unscribers.write().unwrap();
